@@ -154,10 +154,11 @@ def check_C09():
 
 def check_C06():
     ctx = Ctx("C06"); cov = {}
-    broken = proof_part(ctx, "props/C06.v", ["proofs/C06_seq.v", "proofs/C06_hist.v", "proofs/C12_twins.v", "proofs/C01_ops.v"], cov)
+    broken = proof_part(ctx, "props/C06.v", ["proofs/C06_seq.v", "proofs/C06_hist.v", "proofs/C12_twins.v", "proofs/C01_ops.v", "proofs/C02_good.v", "proofs/C02_methods.v", "proofs/C02_lin.v"], cov)
     res = cache_seq_part(ctx, "C06", cov, N(ctx, 1200, 20000), broken, dense=True)
     law_part(ctx, "C06", cov, res)
     # removals made by the janitor: real time, callback swapped after construction in half of the cases
+    sched_part(ctx, "C06", cov, [("Cache", N(ctx, 2000, 30000), []), ("CacheOf_int", N(ctx, 2000, 30000), [])])
     native = run_native(ctx, "janitor")
     cov["native_janitor"] = native.get("summary")
     for prob in native.get("problems", [])[:3]:
@@ -293,7 +294,73 @@ def check_C10():
     cov["rule"] = "theorem for every key type and every hasher that is a function of the key; the hypothesis about the Go default hasher is checked over a catalogue of every comparable kind against a builtin map (native/hasher), incl. +-0, padding garbage, distinct string headers, interface-typed keys, mutation of pointees"
     return ctx.finish(cov, ["PARTIAL: that runtime.typehash-based defaultHasher is a function of the key's ==-class is checked by correspondence over the catalogue, not proved"])
 
-CHECKS = {"C10": check_C10, "C11": check_C11, "C01": check_C01, "C12": check_C12, "C09": check_C09, "C06": check_C06, "C07": check_C07,
+def sched_part(ctx, pid, cov, sets, directed=True):
+    """CORR-sched as a search: generated and directed scenarios on the real code under the
+    controlled scheduler; histories checked against the sequential specification (porcupine),
+    plus fn-count / callback / final-state / deadlock side checks; rows speaking against pid are violations"""
+    from . import sched
+    tools, log = sched.build(ctx)
+    if not all(tools.values()):
+        ctx.violation("build-sched", dict(broken=["CORR-sched (does not build)"], log=log[-1500:]), failing_input=False,
+                      what="the rewritten scratch copy, the scheduler driver or the checker no longer builds")
+        return
+    total, bad, dist = 0, [], {}
+    texts = []
+    if directed:
+        texts.append(("directed", sched.directed()))
+    for i, (cont, n, extra) in enumerate(sets):
+        texts.append(("%s %s" % (cont, " ".join(extra)), sched.gen(tools, cont, n, ctx.seed + i, list(extra) + ["-prefix", "g%d_" % i])))
+    for name, txt in texts:
+        if not txt.strip():
+            continue
+        rows, err = sched.run_scenarios(tools, txt)
+        if rows is None:
+            ctx.violation("sched-run", dict(broken=["CORR-sched run failed: " + name], log=err), failing_input=False)
+            continue
+        total += len(rows)
+        dist[name] = len(rows)
+        for row in rows:
+            if pid in sched.classify(row):
+                bad.append((name, row))
+    cov["schedules_run"] = cov.get("schedules_run", 0) + total
+    cov["traces_validated_against_impl"] = cov.get("traces_validated_against_impl", 0) + total
+    cov["schedule_sets"] = dist
+    cov["schedule_violations"] = len(bad)
+    if texts and texts[-1][1].strip():
+        cov.setdefault("samples", []).append(texts[-1][1].splitlines()[0][:1500])
+    for n, (name, (scen, res, lc)) in enumerate(bad[:3]):
+        ctx.violation("sched-%d" % n,
+                      dict(correspondence="CORR-sched", scenario=scen, checker=lc,
+                           failing_op=json.dumps((scen or {}).get("threads"))[:400],
+                           history=(res or {}).get("history"), events=(res or {}).get("events"), final=(res or {}).get("final"),
+                           how_to_replay="echo '<scenario>' | verifsched | lincheck   (bin/check %s --replay <this file>)" % pid),
+                      failing_input=True,
+                      what="under this schedule the real code %s" % ("is not linearizable" if lc.get("linearizable") is False else "; ".join(lc.get("violations", []))[:200]))
+
+def check_C02():
+    ctx = Ctx("C02"); cov = {}
+    broken = proof_part(ctx, "props/C02.v", ["proofs/C02_good.v", "proofs/C02_methods.v", "proofs/C02_lin.v", "proofs/C01_sim.v", "proofs/C01_ops.v", "Lin.v"], cov)
+    n = N(ctx, 2500, 40000)
+    sched_part(ctx, "C02", cov, [("Cache", n, []), ("CacheOf_int", n, []), ("CacheOf_str", n // 2, ["-sched", "pct"]),
+                                 ("Cache", n // 2, ["-threads", "4", "-ops", "4", "-sched", "mix"])])
+    if broken and not ctx.violations:
+        ctx.violation("proof", dict(broken=broken), failing_input=False, what="proof obligation no longer checks")
+    cov["rule"] = "3-4 threads x 3-4 calls on <=3 keys (entries live, expired-uncleaned, absent after a sequential setup with clock advances), random / PCT schedules at the granularity of single atomic and lock operations of the real code; histories checked for linearizability against the TTL specification; directed schedules of past findings first"
+    return ctx.finish(cov, ["theorem at map-call granularity over an atomic map; atomicity of the Go maps is C03/C04 (searched here on the full stack)", "clock, default and callback constant during a phase"])
+
+def check_C05():
+    ctx = Ctx("C05"); cov = {}
+    broken = proof_part(ctx, "props/C05.v", ["proofs/C05_spec.v", "proofs/C05_map.v", "proofs/C02_lin.v", "proofs/C02_methods.v", "proofs/C11_table.v"], cov)
+    n = N(ctx, 1500, 25000)
+    sched_part(ctx, "C05", cov, [("Cache", n, []), ("CacheOf_int", n, []), ("Map", n, ["-prefill", "73"]),
+                                 ("MapOf_int", n, ["-hasher", "const", "-prefill", "125"]), ("MapOf_str", n, ["-prefill", "121"])])
+    table_part(ctx, "C05", cov, N(ctx, 80, 800), [])
+    if broken and not ctx.violations:
+        ctx.violation("proof", dict(broken=broken), failing_input=False, what="proof obligation no longer checks")
+    cov["rule"] = "racing get-or-create / compute calls on one key under random schedules incl. tables prefilled to the grow threshold (retry after a resize); user-function invocations counted per call; sequential fn counts compared with the table model across grow thresholds"
+    return ctx.finish(cov, ["map-level interleavings are searched, not yet proved (C03/C04)"])
+
+CHECKS = {"C02": check_C02, "C05": check_C05, "C10": check_C10, "C11": check_C11, "C01": check_C01, "C12": check_C12, "C09": check_C09, "C06": check_C06, "C07": check_C07,
           "C08": check_C08, "C15": check_C15}
 
 def replay(pid, path):
